@@ -567,10 +567,17 @@ func (p *Parser) evaluateBuiltInFunction(tokenType lexer.TokenType, keyword stri
 	// Evaluate arguments if it's a print call with arguments.
 	if nextToken.Type() != lexer.CLOSING_ROUND_BRACKET {
 		for {
+			argToken := p.peek()
 			expr, err := p.evaluateExpression(ctx)
 
 			if err != nil {
 				return nil, err
+			}
+
+			// An argument must be a value (a call of a function without return values is not) and,
+			// for builtins with a fixed number of arguments, a single value.
+			if dataType := expr.ValueType().DataType(); dataType == DATA_TYPE_UNKNOWN || (dataType == DATA_TYPE_MULTIPLE && maxArg >= 0) {
+				return nil, p.expectedError(fmt.Sprintf("a value as argument of %s", keyword), argToken)
 			}
 			expressions = append(expressions, expr)
 			nextToken = p.peek()
